@@ -1,3 +1,4 @@
+import BsVerif.Gen.Sigs
 /-!
 # Model of the ptrace tracer for many threads (C09)
 
@@ -165,9 +166,9 @@ structure St where
   last   : Option Reason := none       -- what the last command returned
   deriving Repr
 
-def quietSignals : List Nat := [14, 23, 17, 29, 26, 27]   -- SIGALRM SIGURG SIGCHLD SIGIO SIGVTALRM SIGPROF
+/-- `QUIET_SIGNALS`, re-read from tracer.rs on every run (tools/tables/sigs.py) -/
+def quietSignals : List Nat := Gen.Sigs.quiet
 def isQuiet (s : Nat) : Bool := quietSignals.contains s
-def sigInt : Nat := 2
 def sigTrap : Nat := 5
 def sigStop : Nat := 19
 
@@ -402,7 +403,7 @@ def step (s : St) (e : Ev) : St :=
       else if code = 4 then die s "unsupported:hardware-breakpoint"
       else ret s none
     else
-      let s := if sg ≠ sigInt then { s with queue := s.queue ++ [(t, sg)] } else s
+      let s := if !Gen.Sigs.transparent.contains sg then { s with queue := s.queue ++ [(t, sg)] } else s
       if !s.tbl.has t then die s "panic:unwrap-unknown-tracee"
       else
         let s := { s with tbl := s.tbl.setSt t (.sigstop sg) }
@@ -430,5 +431,23 @@ def step (s : St) (e : Ev) : St :=
   | _, _ => die s "reject:unexpected-call"
 
 def run (s : St) (es : List Ev) : St := es.foldl step s
+
+/-! ## The absorption decision of `apply_new_status` when temporary breakpoints exist (tracer.rs:428-450)
+
+During `step` / `next` / `finish` the debugger plants temporary breakpoints and resumes EVERY thread.  A thread that
+then hits a breakpoint which is not "its own temporary one" is stepped over it silently: the hit is not returned. -/
+
+inductive BpKind
+  | user | entryPoint | linkerMap | temporary | temporaryAsync | wpCompanion | transparent
+  deriving DecidableEq, Repr
+
+/-- `true` = the hit is stepped over and `Ok(None)` is returned (never reported).
+`kinds` = kinds of all active breakpoints, `hit` = kind of the breakpoint that was hit, `owner` = `pid == brkpt.pid`. -/
+def absorbsSilently (kinds : List BpKind) (hit : BpKind) (owner : Bool) : Bool :=
+  let hasTmp := kinds.any (fun k => k == .temporary || k == .temporaryAsync)
+  let temporaryHit := hit == .temporary && owner
+  let temporaryAsyncHit := hit == .temporaryAsync
+  let watchpointHit := hit == .wpCompanion
+  hasTmp && !temporaryHit && !watchpointHit && !temporaryAsyncHit
 
 end BsVerif.Tracer
